@@ -207,6 +207,10 @@ def fixed_corpus():
         (e2, 'jump', (c * f * g * h,), 'corpus:jump(c*f*g*h)'),
         (e2, 'grad', (h * C.dot(C.grad(G), C.grad(h)),), 'corpus:grad(h*dot(grad G,grad h))'),
         (e2, 'laplace', (f * F,), 'corpus:laplace(f*F)'),
+        # shapes added after seeded change C02-1 (constant base, non constant exponent)
+        (e2, 'grad', (c ** f,), 'corpus:grad(c**f)'),
+        (e2, 'grad', (g * 2 ** f,), 'corpus:grad(g*2**f)'),
+        (e2, 'div', (2 ** f * F,), 'corpus:div(2**f*F)'),
     ]
 
 
